@@ -1094,6 +1094,8 @@ class Ev:
                 # idiom: try: return Enum(x) / except ValueError: pass
                 handled = [h for h in s.handlers if h.type is not None and (dotted(h.type) or "").split(".")[-1] == "ValueError"]
                 hb = handled[0].body if handled else []
+                # logging has no effect on the decoded value
+                hb = [x for x in hb if not (isinstance(x, ast.Expr) and isinstance(x.value, ast.Call) and (dotted(x.value.func) or "").split(".")[0] in ("_LOGGER", "logging", "_LOG", "logger"))] or ([ast.Pass()] if hb else [])
                 simple_handler = all(isinstance(x, ast.Pass) for x in hb) or (len(hb) == 1 and isinstance(hb[0], ast.Return))
                 if len(s.body) == 1 and isinstance(s.body[0], ast.Return) and handled and len(s.handlers) == 1 and simple_handler and not s.orelse and not s.finalbody:
                     v = self.ev(s.body[0].value, env, module)
